@@ -172,7 +172,7 @@ func amount(r *engine.Rand, bits int) *big.Int {
 
 // pickProviders draws 1..4 bound providers of a service (mostly available ones) and returns
 // them with the largest price (in the base denom, generator guidance) and promised response time.
-func pickProviders(r *engine.Rand, si servicemod.ServiceInfo, rate *big.Rat) (provs []string, maxPrice *big.Int, maxQ uint64) {
+func pickProviders(r *engine.Rand, si servicemod.ServiceInfo, rate *big.Rat, atLeast int) (provs []string, maxPrice *big.Int, maxQ uint64) {
 	cands := si.Providers
 	if r.Bool(0.85) {
 		var av []servicemod.ProviderInfo
@@ -195,6 +195,9 @@ func pickProviders(r *engine.Rand, si servicemod.ServiceInfo, rate *big.Rat) (pr
 	}
 	if k == 1 && len(cands) >= 2 && r.Bool(0.6) {
 		k = 2 // thresholds 1 and 2 are both meaningful with two providers
+	}
+	if k < atLeast && len(cands) >= atLeast {
+		k = atLeast
 	}
 	for _, i := range r.Perm(len(cands))[:k] {
 		p := cands[i]
@@ -256,7 +259,7 @@ func (m *Module) genCreate(w *engine.World, r *engine.Rand, svc *servicemod.Modu
 		return nil
 	}
 	si := svcs[r.Intn(len(svcs))]
-	provs, maxPrice, maxQ := pickProviders(r, si, m.curRate())
+	provs, maxPrice, maxQ := pickProviders(r, si, m.curRate(), m.cfg.MinProviders)
 	if len(provs) == 0 {
 		return nil
 	}
@@ -287,6 +290,9 @@ func (m *Module) genCreate(w *engine.World, r *engine.Rand, svc *servicemod.Modu
 		a.Name = m.ord[r.Intn(len(m.ord))] // an existing name: must be refused
 	}
 	a.Func = []string{"max", "min", "avg"}[r.Intn(3)]
+	if m.cfg.PAvg > 0 && r.Bool(m.cfg.PAvg) {
+		a.Func = "avg"
+	}
 	a.Path = paths[r.Intn(len(paths))]
 	a.Threshold = uint32(1 + r.Intn(len(provs)))
 	if r.Bool(0.4) {
@@ -408,7 +414,7 @@ func (m *Module) genEdit(w *engine.World, r *engine.Rand, svc *servicemod.Module
 		a.Threshold = uint32(1 + r.Intn(len(f.Providers)))
 	case 4:
 		if si != nil {
-			provs, maxPrice, _ := pickProviders(r, *si, m.curRate())
+			provs, maxPrice, _ := pickProviders(r, *si, m.curRate(), m.cfg.MinProviders)
 			a.Providers = provs
 			if len(provs) > 0 {
 				a.Threshold = uint32(1 + r.Intn(len(provs)))
